@@ -7,8 +7,8 @@ using namespace vf;
 
 static long countCases(Ctx& c)
 {
-    if (c.prop == "C12") return fld::count(c) + c13::detCount() + (c.thorough() ? 200000 : 8000);
-    if (c.prop == "C11") return fld::count(c) + c13::detCount() + (c.thorough() ? 200000 : 8000);
+    if (c.prop == "C12") return fld::count(c) + c13::detCount() + (c.thorough() ? 400000 : 60000);
+    if (c.prop == "C11") return fld::count(c) + c13::detCount() + (c.thorough() ? 400000 : 60000);
     if (c.prop == "C13") return c13::count(c);
     if (c.prop == "C14") return c14::count(c);
     return -1;
